@@ -299,20 +299,42 @@ package ice
 //@ // C05: postings iterator navigation (document-number level)
 //@ // chunk sizes are positive and fit the 32-bit arithmetic the iterator uses
 //@ // (numDocs < 2^32 because document numbers are uint32)
+//@ // lock step of the two roaring cursors: Actual is a subset of all, and between calls both
+//@ // cursors stand just behind the last returned document
+//@ spec subset(a set, b set) bool = forall(k, select(a, k) ==> select(b, k))
+//@ spec maxi(a int, b int) int = ite(a >= b, a, b)
+//@
 //@ func (*PostingsIterator).nextDocNumAtOrAfter
 //@   safety[C05] conv div nil
 //@   requires[C05] i != nil
 //@   requires[C05] i.Actual != nil ==> i.postings != nil && i.all != nil && 1 <= i.postings.chunkSize && i.postings.chunkSize <= 4294967295
+//@   requires[C05] i.Actual != nil ==> inU32(itset(i.Actual)) && inU32(itset(i.all)) && itcur(i.Actual) >= 0
+//@   requires[C05] @lockstep i.Actual != nil && i.postings.postings != i.ActualBM ==> i.all != i.Actual && subset(itset(i.Actual), itset(i.all)) && itcur(i.all) <= itcur(i.Actual)
+//@   let target = maxi(old(itcur(i.Actual)), atOrAfter)
 //@   // 1-hit cursor: delivered at most once, only if not below the target; the consumed sentinel is absorbing
 //@   ensures[C05] old(i.normBits1Hit) != 0 ==> err == nil && i.docNum1Hit == 18446744073709551615
 //@   ensures[C05] old(i.normBits1Hit) != 0 && exists ==> docNum == old(i.docNum1Hit) && docNum >= atOrAfter && docNum != 18446744073709551615
 //@   ensures[C05] old(i.normBits1Hit) != 0 && old(i.docNum1Hit) != 18446744073709551615 && old(i.docNum1Hit) >= atOrAfter ==> exists
 //@   ensures[C05] old(i.normBits1Hit) != 0 && old(i.docNum1Hit) == 18446744073709551615 ==> !exists
-//@   ensures[C05] err == nil && exists ==> docNum >= atOrAfter
+//@   // general encoding: the least non-excluded member at or after max(target, successor of the last returned one)
+//@   ensures[C05] @first old(i.normBits1Hit) == 0 && old(i.Actual) != nil && err == nil && exists ==> docNum == least(old(itset(i.Actual)), target) && docNum >= atOrAfter
+//@   ensures[C05] @none old(i.normBits1Hit) == 0 && old(i.Actual) != nil && err == nil && !exists ==> least(old(itset(i.Actual)), target) == -1
+//@   ensures[C05] old(i.normBits1Hit) == 0 && old(i.Actual) == nil ==> !exists && err == nil
+//@   // the cursors stay in lock step and only move forward ("nil stays nil")
+//@   ensures[C05] @lockstep_kept old(i.normBits1Hit) == 0 && err == nil && i.Actual != nil ==> i.Actual == old(i.Actual) && i.all == old(i.all) && itcur(i.Actual) >= old(itcur(i.Actual)) && (i.postings.postings != i.ActualBM ==> itcur(i.all) <= itcur(i.Actual) && itset(i.all) == old(itset(i.all)) && itset(i.Actual) == old(itset(i.Actual)))
+//@   ensures[C05] old(i.normBits1Hit) == 0 && err == nil && exists ==> itcur(i.Actual) == docNum + 1
+//@   loop 0 invariant[C05] allN <= n && itcur(i.all) == allN + 1 && select(itset(i.all), n) && itcur(i.Actual) == n + 1 && 0 <= allN
+//@   loop 0 invariant[C05] i.Actual == old(i.Actual) && i.all == old(i.all) && itset(i.Actual) == old(itset(i.Actual)) && itset(i.all) == old(itset(i.all)) && i.Actual != i.all
+//@   loop 0 invariant[C05] n == least(old(itset(i.Actual)), target)
 //@
 //@ func (*PostingsIterator).nextDocNumAtOrAfterClean
 //@   safety[C05] conv div nil
 //@   requires[C05] i != nil && i.Actual != nil && i.postings != nil && 1 <= i.postings.chunkSize && i.postings.chunkSize <= 4294967295
-//@   requires[C05] atOrAfter <= 4294967295
+//@   requires[C05] atOrAfter <= 4294967295 && inU32(itset(i.Actual)) && itcur(i.Actual) >= 0
 //@   requires[C05] least(itset(i.Actual), itcur(i.Actual)) != -1
-//@   ensures[C05] err == nil && exists ==> docNum >= atOrAfter
+//@   let target = maxi(old(itcur(i.Actual)), atOrAfter)
+//@   ensures[C05] @first err == nil && exists ==> docNum == least(old(itset(i.Actual)), target) && docNum >= atOrAfter && itcur(i.Actual) == docNum + 1
+//@   ensures[C05] @none err == nil && !exists ==> least(old(itset(i.Actual)), target) == -1
+//@   ensures[C05] i.Actual == old(i.Actual) && i.all == old(i.all) && itcur(i.Actual) >= old(itcur(i.Actual)) && itset(i.Actual) == old(itset(i.Actual))
+//@   loop 0 invariant[C05] i.Actual == old(i.Actual) && itset(i.Actual) == old(itset(i.Actual)) && itcur(i.Actual) == n + 1 && n >= old(itcur(i.Actual))
+//@   loop 0 invariant[C05] select(itset(i.Actual), n) && forall(k, old(itcur(i.Actual)), n, select(itset(i.Actual), k) ==> k < atOrAfter)
